@@ -14,7 +14,7 @@ open ZV ZV.Std
 
 def splitSemi (s : String) : List String := if s == "" || s == "[]" then [] else s.splitOn ";"
 
-def parseLists {α} (p : String → Option α) (s : String) : Option (List (List α)) :=
+def parseLists_C05 {α} (p : String → Option α) (s : String) : Option (List (List α)) :=
   (splitSemi s).mapM (parseList p)
 
 def parseOptLists {α} (p : String → Option α) (s : String) : Option (List (List (Option α))) :=
@@ -60,12 +60,12 @@ def opOutcomeIpmw (a : Args) : Except String String := do
   pure s!"ok w={showList (showOpt sh) ws}"
 
 /-- plan from `p=` (unconditional) or `ps=` + `masks=` (conditional, listing order) -/
-def parsePlan (a : Args) : Except String (Stoch.Plan F) :=
+def parsePlan_C05 (a : Args) : Except String (Stoch.Plan F) :=
   match a.get? "p" with
   | some _ => do pure (.uncond (← need a "p" (Carrier.parse (F := F))))
   | none => do
     let ps ← need a "ps" (parseList (Carrier.parse (F := F)))
-    let ms ← need a "masks" (parseLists parseBool)
+    let ms ← need a "masks" (parseLists_C05 parseBool)
     if ps.length ≠ ms.length then throw "bad-arg:lengths"
     pure (.cond ((ps.zip ms).map fun (p, m) => ⟨fun i => (m.toArray).getD i false, p⟩))
 
@@ -73,7 +73,7 @@ def parsePlan (a : Args) : Except String (Stoch.Plan F) :=
 def opStochW (a : Args) : Except String String := do
   let l : List (Row F) ← parseRows a
   let g : Array F ← vals a "g"
-  let pl ← parsePlan (F := F) a
+  let pl ← parsePlan_C05 (F := F) a
   let nu := l.map (Stoch.planNumer pl)
   let ws := l.map (Stoch.stochWeight pl (look g))
   let hw := l.map (Stoch.haw pl (look g))
@@ -81,7 +81,7 @@ def opStochW (a : Args) : Except String String := do
 
 /-- IPMW: `obs=` one `;`-separated list per variable; `d=`/`n=` likewise with `_` = NaN prediction -/
 def opIpmw (a : Args) : Except String String := do
-  let ob ← need a "obs" (parseLists parseBool)
+  let ob ← need a "obs" (parseLists_C05 parseBool)
   let stab ← need a "stab" parseBool
   let k := ob.length
   let nrow := (ob.headD []).length
